@@ -495,6 +495,11 @@ func init() {
 		for _, l := range []string{"4", "20"} {
 			jobs = append(jobs, vx.Job{Scenario: "adminapi.bfs", Params: vx.P("depth", "2", "alphabet", "reduced", "uidlen", l), Weight: 4})
 		}
+		// the API through a real admin session, with fast and slow database operations
+		jobs = append(jobs, vx.Job{Scenario: "adminapi.session", Weight: 3})
+		// "fields not mentioned in an update keep their value" while the server is running: a partial update
+		// overlapping a usage upload (every interleaving of their database transactions)
+		jobs = append(jobs, vx.Job{Scenario: "panel.usage", Params: vx.P("sessions", "0.1", "ops", "up0.1:10,round,cap0", "db", "bolt"), Bound: map[string]int{"quick": 1, "thorough": 2}[tier], BudgetS: map[string]int{"quick": 100, "thorough": 900}[tier], Weight: 7})
 		// the upload round that follows a deletion / an exhausted credit when the user's last session has already gone
 		jobs = append(jobs, vx.Job{Scenario: "panel.usage", Params: vx.P("sessions", "0.1", "ops", "up0.1:30,close0.1,delete0,round", "seq", "1", "db", "bolt"), Bound: 0, Weight: 3},
 			vx.Job{Scenario: "panel.usage", Params: vx.P("sessions", "0.1", "ops", "up0.1:300,close0.1,round", "upcredit", "200", "seq", "1", "db", "bolt"), Bound: 0, Weight: 3})
